@@ -49,7 +49,10 @@ def gen_cases(ctx):
             c = gen_case(rng, ctx.quick)
             c.update(shape=base["shape"], diameter=base["diameter"])
             nx, ny = base["shape"]
-            c["x"] = [[float(rng.randint(-8, 8)) if rng.random() < 0.7 else float(rng.choice([-1, 1])) for _ in range(ny)] for _ in range(nx)]
+            if rng.random() < 0.45:   # two-level designs: the solid/void maxima tie in every selection step
+                c["x"] = [[float(rng.choice([-1, 1])) for _ in range(ny)] for _ in range(nx)]
+            else:
+                c["x"] = [[float(rng.randint(-4, 4)) for _ in range(ny)] for _ in range(nx)]
             cases.append(c)
     if not ctx.quick:
         for _ in range(10):
